@@ -595,6 +595,9 @@ loop:
 				}
 			}
 		case opMsg:
+			if procExited {
+				continue // the process loop has returned: nothing reads the stream any more
+			}
 			m := o.M.message()
 			before := map[*hh]int{}
 			for _, h := range r.live {
@@ -1354,7 +1357,7 @@ func runC17(res *hx.Result, rng *hx.Rng, tier string, outdir string) {
 		}
 		waitc := make(chan error, 1)
 		go func() { waitc <- cmd.Wait() }()
-		limit := 20 * time.Minute
+		limit := 3 * time.Hour
 		if tier == "quick" {
 			limit = 4 * time.Minute
 		}
